@@ -763,12 +763,36 @@ func TestC15ChildDialClose(t *testing.T) {
 	}
 	// the client exactly as the binary builds it: NewSnowflakeClient parses the ICE addresses, starts the NAT-type
 	// probe goroutine over them and wires the dialer; only the rendezvous method is replaced (unreachable broker)
-	tr, err := NewSnowflakeClient(ClientConfig{BrokerURL: "http://127.0.0.1:1/", ICEAddresses: ice, KeepLocalAddresses: true, Max: 1})
+	brokerURL := "http://127.0.0.1:1/"
+	silent := os.Getenv("VERIF_C15_DEAD") == "silent-broker"
+	if silent {
+		// a broker that accepts the connection, reads the poll and never answers; the REAL rendezvous method and broker
+		// transport are used: the attempt in flight ends at the transport's response-header timeout
+		hole, err := net.Listen("tcp", "127.0.0.1:0")
+		if err != nil {
+			fmt.Printf("C15CHILD dial-failed listen: %v\n", err)
+			return
+		}
+		defer hole.Close()
+		go func() {
+			for {
+				c, err := hole.Accept()
+				if err != nil {
+					return
+				}
+				go func() { io.Copy(io.Discard, c); c.Close() }()
+			}
+		}()
+		brokerURL = "http://" + hole.Addr().String() + "/"
+	}
+	tr, err := NewSnowflakeClient(ClientConfig{BrokerURL: brokerURL, ICEAddresses: ice, KeepLocalAddresses: true, Max: 1})
 	if err != nil {
 		fmt.Printf("C15CHILD dial-failed NewSnowflakeClient: %v\n", err)
 		return
 	}
-	tr.SetRendezvousMethod(&c15StubRendezvous{kind: "unreachable"})
+	if !silent {
+		tr.SetRendezvousMethod(&c15StubRendezvous{kind: "unreachable"})
+	}
 	c, err := tr.Dial()
 	if err != nil {
 		fmt.Printf("C15CHILD dial-failed %v\n", err)
@@ -788,7 +812,12 @@ func TestC15ChildDialClose(t *testing.T) {
 		}
 	}
 	one := func() string { c.Close(); return "ok" }
-	o1, _ := c15Wait(c15Async(one), 15*time.Second)
+	first := 15 * time.Second
+	if silent {
+		time.Sleep(time.Second) // the poll is with the silent broker now
+		first = 30 * time.Second
+	}
+	o1, _ := c15Wait(c15Async(one), first)
 	o2, _ := c15Wait(c15Async(one), 15*time.Second)
 	time.Sleep(200 * time.Millisecond)
 	melted := "?"
@@ -836,7 +865,9 @@ func c15DialClose(r *vh.Run, ice []string, dead string) {
 	}
 	line := "c15 seq 111 1 e,e -"
 	caseLine := fmt.Sprintf("%s  [child process: Transport.Dial with ICEAddresses %q and an unreachable broker, then SnowflakeConn.Close() twice]", line, ice)
-	if dead != "" {
+	if dead == "silent-broker" {
+		caseLine = strings.Replace(caseLine, "an unreachable broker", "a broker that accepts the poll and never answers (real rendezvous method and transport)", 1)
+	} else if dead != "" {
 		caseLine += fmt.Sprintf("  [the %s was already dead at the first Close]", dead)
 	}
 	r.Case(fmt.Sprintf("template/dial-close-twice/ice=%q/dead=%q/%s", ice, dead, real), caseLine, true)
@@ -857,7 +888,7 @@ func c15DialClose(r *vh.Run, ice []string, dead string) {
 		r.OracleFail("end-twice-panics", caseLine, real,
 			"closing a SnowflakeConn repeatedly must return, a Close panicked (close of closed channel in Peers.End)")
 	case strings.Contains(real, "blocked"):
-		r.OracleFail("end-blocked", caseLine, real, "SnowflakeConn.Close() did not return within 15 s")
+		r.OracleFail("end-blocked", caseLine, real, "SnowflakeConn.Close() did not return within 15 s (30 s with a rendezvous attempt held by a silent broker: the broker transport gives up after 15 s)")
 	}
 }
 
@@ -1208,6 +1239,7 @@ func TestVerifC15(t *testing.T) {
 		c15CloseDuringRendezvous(r)
 		c15DialClose(r, nil, "session")
 		c15DialClose(r, nil, "stream")
+		c15DialClose(r, nil, "silent-broker")
 		c15DialCloseTwice(r, []string{"stun:127.0.0.1:1", ""}) // trailing comma
 	}()
 
